@@ -114,6 +114,10 @@ func validateConfig(c *TransportConfig) error {
 			return errors.New("transport group total count must be equal to the number of transports")
 		}
 	}
+	if _, ok := c.TransportMap[c.InitialTransportID]; !ok {
+		// a current transport that is not a member would make the first Write dereference a nil transport
+		return fmt.Errorf("initial transport ID %q is not in the transport map", c.InitialTransportID)
+	}
 
 	return nil
 }
@@ -158,6 +162,11 @@ func (m *Transport) transportIDLoop() {
 	m.logger.Infof(m.ctx, "Starting transport ID loop")
 	defer m.logger.Infof(m.ctx, "Stopping transport ID loop")
 	for id := range ch.ReadOrDone(m.ctx, m.transportIDCh) {
+		if _, ok := m.transportMap[id]; !ok {
+			// a scheduler may emit an id that is not a member (unknown NIC, empty id): ignore it
+			m.logger.Warnf(m.ctx, "Ignoring unknown transport %q", id)
+			continue
+		}
 		m.mu.Lock()
 		if m.currentTransportID != id {
 			m.logger.Infof(m.ctx, "Switching transport to %s", id)
